@@ -1,6 +1,6 @@
 (* C02 — nothing is acted on before a valid OP_AUTH for this connection's own nonce. *)
 From Coq Require Import ZArith List Bool.
-From HP Require Import Bytes Sha1 Wire Broker BrokerSpec BrokerInv BrokerProps.
+From HP Require Import Bytes Sha1 Wire Broker BrokerSpec BrokerInv BrokerProps BrokerStores.
 Import ListNotations.
 
 Section C02.
@@ -58,6 +58,19 @@ Theorem C02_refusal_effect : forall q s,
 Proof. exact bad_effect. Qed.
 End C02.
 
+(* ---- a store whose contents change while the broker runs (a reloaded user file, a rotated secret, a removed user).
+   runs bname async segs = the broker after the segments segs = [(store_1, events_1); (store_2, events_2); ...], each list
+   of callbacks played under the store then in effect.  Every accepted OP_AUTH - whenever it happened - answered its own
+   connection's nonce with the secret of a row that SOME store of the history held for the claimed ident (list equality:
+   prefixes, other nonces, secrets never stored are all excluded); for one segment this is C02_auth_legit. ---- *)
+Theorem C02_changing_store_auth_legit : forall bname async segs l1 q i r dg t,
+  alog (runs bname async segs) = l1 ++ AAuth q i r dg :: t ->
+  exists n, conn_nonce t q = Some n /\ dg = sha1 (n ++ r_secret r) /\ (async = false -> vouched segs i r).
+Proof. exact runs_auth_legit. Qed.
+(* ... and every invariant (registry, refinement of the abstract machine, log legitimacy) holds for such histories *)
+Theorem C02_changing_store_good : forall bname async segs, Good (vouched segs) async (runs bname async segs).
+Proof. exact runs_good. Qed.
+
 Print Assumptions C02_info_first.
 Print Assumptions C02_acted_on_after_auth.
 Print Assumptions C02_auth_legit.
@@ -66,3 +79,5 @@ Print Assumptions C02_preauth_reject.
 Print Assumptions C02_unknown_ident_reject.
 Print Assumptions C02_wrong_digest_reject.
 Print Assumptions C02_refusal_effect.
+Print Assumptions C02_changing_store_auth_legit.
+Print Assumptions C02_changing_store_good.
